@@ -272,6 +272,12 @@ func init() {
 				}
 				bf := bo.Fields
 				opaque := bf[fOpaque] == "1"
+				// whether the base has an opaque path is also read off its text, independently of the getter: a non-special scheme
+				// followed by something that does not start with a slash
+				if ot, ok := opaqueByText(b); ok && ot != opaque {
+					c.Report(Finding{Class: "violation", What: fmt.Sprintf("base %q: OpaquePath() = %v, but its text says %v", b, opaque, ot), Case: cs})
+					opaque = ot
+				}
 				eq := func(x Obs, want map[int]string, keep []int, what string) {
 					if x.Kind != "U" {
 						c.Report(Finding{Class: "violation", What: what + ": resolution failed: " + x.String(), Case: cs})
@@ -360,3 +366,30 @@ func (o Obs) Fields0(i int) string {
 }
 
 func validUTF8(s string) bool { return utf8.ValidString(s) }
+
+// opaqueByText: does the URL text denote a URL with an opaque path (ok=false: not decided from the text)
+func opaqueByText(s string) (opaque bool, ok bool) {
+	t := strings.Map(func(x rune) rune {
+		if x == '\t' || x == '\n' || x == '\r' {
+			return -1
+		}
+		return x
+	}, strings.TrimFunc(s, func(x rune) bool { return x <= 0x20 }))
+	i := strings.IndexByte(t, ':')
+	if i <= 0 {
+		return false, false
+	}
+	sc := asciiLower(t[:i])
+	for k := 0; k < len(sc); k++ {
+		ch := sc[k]
+		if !(ch >= 'a' && ch <= 'z' || k > 0 && (ch >= '0' && ch <= '9' || ch == '+' || ch == '-' || ch == '.')) {
+			return false, false
+		}
+	}
+	for _, sp := range []string{"http", "https", "ws", "wss", "ftp", "file"} {
+		if sc == sp {
+			return false, true
+		}
+	}
+	return !strings.HasPrefix(t[i+1:], "/"), true
+}
